@@ -1,10 +1,10 @@
 #!/bin/sh
 # Offline setup: syntax-check every specification module with SANY and smoke-test the harness imports.
 set -e
-cd "$(dirname "$0")"
-for m in spec/HgNum.tla spec/HgTree.tla spec/HgSem.tla spec/HgSystem.tla spec/HgTrace.tla; do
-  java -cp /opt/veriftools/tla/tla2tools.jar:/opt/veriftools/tla/CommunityModules-deps.jar tla2sany.SANY "$m" >/tmp/sany.$$ 2>&1 || { cat /tmp/sany.$$; rm -f /tmp/sany.$$; exit 1; }
-  if grep -q "error" /tmp/sany.$$; then cat /tmp/sany.$$; rm -f /tmp/sany.$$; exit 1; fi
+cd "$(dirname "$0")/spec"
+for m in *.tla; do
+  out=$(java -cp /opt/veriftools/tla/tla2tools.jar:/opt/veriftools/tla/CommunityModules-deps.jar tla2sany.SANY "$m" 2>&1) || { echo "$out"; exit 1; }
+  case "$out" in *rror*) echo "$out"; exit 1;; esac
 done
-rm -f /tmp/sany.$$
+cd ..
 PYTHONPATH=/repo:. /venv/bin/python -c "import harness.engine, histogrammar; print('setup ok')"
